@@ -243,6 +243,62 @@ def two_port_part(res, rnd, a):
     return viol, len(reqs)
 
 
+def multi_output_part(res, rnd, a):
+    """a producer that writes the same value to two or three outputs back to back, each read by a consumer of its own speed (a fast
+    processor, a much slower processor, the environment): in the simulator and in the generated hardware every consumer must deliver exactly
+    the produced sequence, every value once and in order"""
+    import c02
+    viol = []
+    cases = []
+    for k in (2, 3, 2, 3)[:2 if a.tier == "quick" else 4]:
+        cases.append(c02.directed_two_outputs(rnd, k, True))
+        cases.append(c02.directed_two_outputs(rnd, k, False))
+    go = simlib.run_sims([{"bm": spec, "env": [], "ticks": 600, "dump": "ext", "streams": st} for spec, st in cases])
+    hdl = c02.hdl_streams(cases, "C04m")
+    for (spec, st), g, (hs, herr) in zip(cases, go, hdl):
+        mask = (1 << spec["rsize"]) - 1
+        want = [list(st[0]) if o % 2 == 0 else [(v + 1) & mask for v in st[0]] for o in range(spec["outputs"])]
+        meta = {"machine": spec, "streams": st}
+        res.count_case(meta, nontrivial=True)
+        if g.get("err"):
+            viol.append(("the machine cannot be simulated: %s" % g["err"], meta))
+            continue
+        gs = c02.go_streams(g["ticks"], spec["outputs"])
+        if gs != want:
+            viol.append(("a producer writes %s to %d outputs back to back; in the simulator the consumers deliver %s" % (st[0], spec["outputs"], gs), meta))
+            continue
+        if herr:
+            viol.append((herr, meta))
+            continue
+        if [list(x) for x in hs] != want:
+            viol.append(("a producer writes %s to %d outputs back to back; in the generated hardware the consumers deliver %s (expected %s)"
+                         % (st[0], spec["outputs"], [list(x) for x in hs], want), meta))
+    # one processor reading an input of the machine twice in a row (the environment is as fast as the protocol allows) and forwarding the
+    # two values to two outputs: 1 2 3 4 5 6 must arrive as 1 3 5 and 2 4 6, in the simulator and in the hardware
+    ext = []
+    for rsize in (8, 16)[:1 if a.tier == "quick" else 2]:
+        pad = ["nop"] * 3
+        prog = ["i2rw r0 i0", "i2rw r1 i0", "r2owa r0 o0"] + pad + ["r2owa r1 o1"] + pad + ["j 0"]
+        ops = sorted(set(l.split()[0] for l in prog) | {"nop", "j"})
+        spec = {"rsize": rsize, "procs": [{"arch": {"R": 2, "N": 1, "M": 2, "L": 0, "O": 5, "ops": ops, "mode": "ha", "rsize": rsize}, "prog": prog}],
+                "inputs": 1, "outputs": 2, "bonds": [["p0i0", "i0"], ["o0", "p0o0"], ["o1", "p0o1"]]}
+        ext.append((spec, [[rnd.randrange(1, 200) for _ in range(6)]]))
+    go = simlib.run_sims([{"bm": spec, "env": [], "ticks": 400, "dump": "ext", "streams": st} for spec, st in ext])
+    hdl = c02.hdl_streams(ext, "C04e")
+    for (spec, st), g, (hs, herr) in zip(ext, go, hdl):
+        want = [st[0][0::2], st[0][1::2]]
+        meta = {"machine": spec, "streams": st}
+        res.count_case(meta, nontrivial=True)
+        gs = None if g.get("err") else c02.go_streams(g["ticks"], 2)
+        if gs != want:
+            viol.append(("the environment offers %s on an input read twice in a row; the simulated processor forwards %s (expected %s)"
+                         % (st[0], gs if gs is not None else g.get("err"), want), meta))
+        elif herr or [list(x) for x in hs] != want:
+            viol.append(("the environment offers %s on an input read twice in a row; the generated hardware forwards %s (expected %s)"
+                         % (st[0], herr or [list(x) for x in hs], want), meta))
+    return viol, len(cases) + len(ext)
+
+
 def run(res, a):
     failed = C.proof_part(res, "C04", trusted=[
         "Net/Handshake.v: hand-written automata of the two protocols; SimSys is tied to the Go simulator by following the observed "
@@ -328,6 +384,9 @@ def run(res, a):
                 viol.append((text, {"request": q, "meta": meta}))
     tp_viol, tp_n = two_port_part(res, rnd, a)
     viol += tp_viol
+    mo_viol, mo_n = multi_output_part(res, rnd, a)
+    viol += mo_viol
+    res.coverage["multi_output_producer_machines"] = mo_n
     cov = res.coverage
     cov["two_port_consumer_machines"] = tp_n
     cov["hdl_machines_interpreted"] = len(hcases)
